@@ -25,6 +25,11 @@ def _mk_dup():
 
 
 Pdup = _mk_dup()
+Pdup.__qualname__ = 'P'      # same module, same qualified name, same repr as P: only identity tells them apart
+
+
+class Text: pass             # a user class whose name is also exported by `typing` (typing.Text is str)
+class Counter: pass          # … and one that names a typing generic
 
 
 class NT1(NamedTuple):
@@ -55,7 +60,7 @@ CLASSES = [object, type, abc.ABCMeta, NoneType, bool, int, float, str, bytes, tu
            collections.abc.Sequence, collections.abc.Iterable, collections.abc.Collection, collections.abc.Container,
            collections.abc.Set, collections.abc.MutableSet, collections.abc.MutableSequence, collections.abc.Mapping,
            collections.abc.MutableMapping, collections.abc.Iterator, GeneratorType, ListIterator,
-           P, C1, C2, G, U, MI, L, TS, Pdup, NT1, NT2, NT3, DC]
+           P, C1, C2, G, U, MI, L, TS, Pdup, NT1, NT2, NT3, DC, Text, Counter]
 IDX = {c: i for i, c in enumerate(CLASSES)}
 NAMES = {}
 
@@ -71,8 +76,8 @@ def name_of(i):
     raise KeyError(i)
 
 
-CTX = {'P': P, 'C1': C1, 'C2': C2, 'G': G, 'U': U, 'MI': MI}
-USER = [P, C1, C2, G, U, MI]
+CTX = {'P': P, 'C1': C1, 'C2': C2, 'G': G, 'U': U, 'MI': MI, 'Text': Text, 'Counter': Counter}
+USER = [P, C1, C2, G, U, MI, Text, Counter]
 SEQ = {'list': list, 'set': set, 'frozenset': frozenset, 'deque': collections.deque, 'sequence': collections.abc.Sequence,
        'iterable': collections.abc.Iterable, 'collection': collections.abc.Collection, 'container': collections.abc.Container,
        'abstractSet': collections.abc.Set, 'mutableSet': collections.abc.MutableSet, 'mutableSequence': collections.abc.MutableSequence}
@@ -348,7 +353,7 @@ def gen_ann(r, d, top=True):
     if d > 0: ks += ['union'] * 3 + ['seq'] * 4 + ['map'] * 3 + ['tuple'] * 2 + ['tuplevar', 'typeof', 'fwd']
     if top: ks += ['none', 'str', 'bare']
     k = r.choice(ks)
-    if k == 'cls': return cls_term(r.choice(PLAIN + [object]))
+    if k == 'cls': return cls_term(r.choice(PLAIN + [object, Pdup]))
     if k == 'ntcls': return cls_term(r.choice([NT1, NT2, NT3, DC, TS, L]))
     if k == 'any': return ["any"]
     if k == 'none': return ["none"]
